@@ -48,6 +48,12 @@ def jobs(tier):
                 if sig[0] == (0, 0) and len(sig) == 2:
                     out.append(("gvc.props.c14", "ob_component_slice", dict(D=D, batched=batched)))
         out.append(("gvc.props.c14", "ob_to_images", dict(D=D)))
+        if D > 1:
+            for nlead in ([1, 2] if q else [0, 1, 2, 3]):
+                for sig in [[(1, 0), (0, 0)], [(0, 1), (1, 1), (0, 0)]] + ([] if q else [[(0, 0), (1, 0)]]):
+                    if D == 3 and len(sig) == 3 and q:
+                        continue
+                    out.append(("gvc.props.c14", "ob_average_pool", dict(D=D, nlead=nlead, sig=sig)))
     return out
 
 
@@ -238,3 +244,34 @@ def ob_to_images(D):
         o["bounded_in"] = "batch and channel counts (python loop)"
         obs.append(o)
     return obs
+
+
+def ob_average_pool(D, nlead, sig):
+    """MultiImage.average_pool(2): block t at leading index l is the patch mean of exactly the image x[t][l] -- for every
+    insertion order of the types (sig is given unsorted, too), independent symbolic leading sizes, symbolic channel counts and
+    spatial extents 2h: out[t][l, i, u] = 2^-D sum_{a in {0,1}^D} x[t][l, 2i + a, u]"""
+    Gm = geom()
+    W = World(D)
+    pre = W.pre
+    half = [sint(f"h{d}", pre) for d in range(D)]
+    sp = [Atom(mk(zi(h) * 2), f"N{d}") for d, h in enumerate(half)]
+    lead = W.lead(nlead - 1, "L") if nlead >= 1 else []
+    chans = {k: Atom(sint(f"c{k[0]}{k[1]}", pre), f"c{k[0]}{k[1]}") for k in sig}
+    ldims = {k: (lead + [chans[k]] if nlead >= 1 else []) for k in sig}
+    blocks = {k: arr.source(f"X{k[0]}{k[1]}", ldims[k] + sp + [Atom(D) for _ in range(k[0])]) for k in sig}
+    structure = dict(D=D, nlead=nlead, sig=sig)
+    spec = {}
+    for k in sig:
+        def elem(idx, k=k):
+            nl = len(ldims[k])
+            tot = 0
+            for a in itertools.product([0, 1], repeat=D):
+                src = [mk(zi(idx[nl + d]) * 2 + a[d]).e if isinstance(mk(zi(idx[nl + d]) * 2 + a[d]), SInt) else mk(zi(idx[nl + d]) * 2 + a[d]) for d in range(D)]
+                tot = arr.t_bin("add", tot, blocks[k].elem(list(idx[:nl]) + src + list(idx[nl + D:])))
+            return arr.t_bin("mul", z3.RealVal(1) / (2 ** D), arr.t_z3(tot, True))
+        spec[k] = arr.SArray(ldims[k] + [Atom(h, f"H{d}") for d, h in enumerate(half)] + [Atom(D) for _ in range(k[0])], elem)
+    o = guard(f"C14/MultiImage.average_pool/D={D},lead={nlead},sig={sig}/ensures:per-image-patch-mean,types-in-order", "ensures",
+              lambda: all_paths(pre, lambda: Gm.MultiImage(dict(blocks), D, True).average_pool(2),
+                                lambda r: cmp_blocks(r, spec, D, True, list(sig), "average_pool")), structure)
+    o["replay"] = dict(scenario="avgpool", D=D, nlead=nlead, model=o.get("model"))
+    return [o]
